@@ -160,6 +160,47 @@ def pool_discipline(rep):
                             where=f'{rel}:{c.lineno} {var} released to its pool; ' + ('not read afterwards' if ok else f'read again at line(s) {[x.lineno for x in later][:4]} - another thread may already have acquired and cleared it'))
     if n == 0: rep.error('C15: no pool release call found')
 
+def lockfree_memo(rep):
+    """safe publication of lock-free lazily memoised slots: `if <obj>.<slot> is None: ... <obj>.<slot> = value` outside any lock is only
+    benign (duplicate work, same answer) if the slot goes from None to its FINAL value in one store: exactly one plain assignment in the
+    guarded block, no augmented assignment, and no read of the slot before that store (a second thread passing or failing the guard then sees
+    either None or the complete value, as in some sequential order)"""
+    def slot_key(n):
+        if isinstance(n, ast.Attribute) and isinstance(n.value, ast.Name): return (n.value.id, n.attr)
+    n_sites = 0
+    for root, ds, fs in os.walk(os.path.join(REPO, 'beartype')):
+        for f in sorted(fs):
+            if not f.endswith('.py'): continue
+            p = os.path.join(root, f); rel = os.path.relpath(p, REPO)
+            try: tree = ast.parse(open(p).read())
+            except Exception: continue
+            locked = set()
+            for w in ast.walk(tree):
+                if isinstance(w, (ast.With, ast.AsyncWith)):
+                    for x in ast.walk(w): locked.add(id(x))
+            for fn in ast.walk(tree):
+                if not isinstance(fn, (ast.FunctionDef, ast.AsyncFunctionDef)): continue
+                for n in ast.walk(fn):
+                    if not (isinstance(n, ast.If) and isinstance(n.test, ast.Compare) and len(n.test.ops) == 1 and isinstance(n.test.ops[0], ast.Is)
+                            and isinstance(n.test.comparators[0], ast.Constant) and n.test.comparators[0].value is None): continue
+                    k = slot_key(n.test.left)
+                    if not k or id(n) in locked: continue
+                    stores, loads = [], []
+                    for st in n.body:
+                        for x in ast.walk(st):
+                            if isinstance(x, ast.Attribute) and slot_key(x) == k:
+                                (stores if isinstance(x.ctx, ast.Store) else loads).append(x)
+                    aug = [x for st in n.body for x in ast.walk(st) if isinstance(x, ast.AugAssign) and slot_key(x.target) == k]
+                    if not stores: continue
+                    n_sites += 1
+                    first = min((x.lineno, x.col_offset) for x in stores)
+                    early = [x for x in loads if (x.lineno, x.col_offset) < first]
+                    ok = len(stores) == 1 and not aug and not early
+                    why = 'one store of the complete value' if ok else f'{len(stores)} stores (lines {[x.lineno for x in stores][:6]}), {len(aug)} augmented, {len(early)} reads before the first store: another thread can observe or extend a half-built value'
+                    rep.add(f'C15.lockfree_memo.single_publication.{fn.name}.{k[1]}@{n.lineno}', 'proved' if ok else 'refuted', backend='structural',
+                            where=f'{rel}:{n.lineno} lazily memoised {k[0]}.{k[1]} filled outside any lock in {fn.name}(): {why}')
+    if n_sites == 0: rep.error('C15: no lock-free lazily memoised slot found (extraction key no longer resolves)')
+
 def main(tier, seed):
     rep = report.Report('C15', tier, seed, 'other', f'./check C15 --tier {tier}')
     ws = []
@@ -171,7 +212,12 @@ def main(tier, seed):
         ws += list(claw_guard(rep).values())
         lock_order(rep, ws)
         pool_discipline(rep)
+        lockfree_memo(rep)
     except Exception: rep.error('C15: ' + traceback.format_exc()[-2500:])
+    try:
+        from props import c15_sched
+        c15_sched.add(rep, tier, seed, REPO)
+    except Exception: rep.error('C15 scheduler: ' + traceback.format_exc()[-2500:])
     rep.functions = ['KeyPool.* (utilcachepool.py)', 'CacheUnboundedStrong.* (utilmapunbounded.py)', 'BeartypeConf.__new__ (table access)', 'utilcacheobjattr.* (table access)', 'claw registry functions (10 modules)', 'every function calling release_instance / release_fixed_list']
     rep.trusted = ['Python `with lock:` acquires on entry and releases on every exit path (threading.Lock / RLock contract)', 'lexical analysis of the real ASTs by pyvc (props/c15.py)']
     rep.assumptions = ['NOTHING is claimed about schedules / interleavings: contract-based per-function verification does not range over them (see DESIGN 4, C15)',
